@@ -10,16 +10,25 @@ BOUND = ("all 1-variable networks, all 256 (thorough) / sampled (quick) 2-variab
          "with <= 9 variables (explicit states only; the 'any size / symbolic' part of the quantifier is NOT covered here); network_to_petrinet on "
          "every state; restrict_petrinet_to_subspace for seeded subspaces (all subspaces when n <= 3) on every state of the subspace, also applied "
          "twice; percolate_network for every trap space (<= 40 seeded ones) with and without remove_constants; node_percolated_network / "
-         "node_percolated_petri_net of every node after a seeded expansion history")
+         "node_percolated_petri_net of every node after a seeded expansion history, for nodes with several predecessors also derived from the cached net of each "
+         "predecessor (parent_id) after reclaim_node_data; the hand-built part includes unions of 2-3 independent bistable modules (diamond-shaped diagrams)")
 RULE = "non-trivial = the network has >= 2 variables and at least one enabled transition in some state"
 CASE_TIMEOUT = 60.0
 
 
+def all_nets(seed, tier):
+    # diamond-shaped diagrams (a node with two predecessors fixing different variables) first
+    deep = families.deep_nets(seed, tier)
+    yield from families.interleave((deep, 1), (families.network_family(seed, tier, hand_max_vars=9, include_2var=64 if tier == "quick" else 256), 4))
+
+
 def cases(seed, tier):
-    for name, bnet in families.network_family(seed, tier, hand_max_vars=9, include_2var=64 if tier == "quick" else 256):
+    for name, bnet in all_nets(seed, tier):
         names = families.variables(bnet)
         rng = random.Random(f"{seed}-{name}-c10")
         hist = families.random_history(rng.randrange(1 << 30), names, rng.randint(1, 3), families.PLAIN_OPS + ["block", "min_skip", "reclaim"])
+        if name in families.DEEP:
+            yield {"net": name, "bnet": bnet, "space_seed": rng.randrange(1 << 30), "history": [["bfs", None, None, None]]}
         yield {"net": name, "bnet": bnet, "space_seed": rng.randrange(1 << 30), "history": hist}
 
 
@@ -159,6 +168,24 @@ def check_with_info(case):
         else:
             compare_moves(out, "node_petri_net_transition_mismatch", "the node's Petri net coincides with the original dynamics on the node's space", f"node {i} {sp}", net,
                           lambda d, npn=npn: pn_moves(npn, d), sp, free)
+        # the same accessor started from the cached net of EVERY predecessor (parent_id), after the caches were dropped with reclaim_node_data
+        preds = sorted(sd.dag.predecessors(i))
+        if len(preds) >= 2 and len(sp) < net.n and info.setdefault("parent_paths", 0) < 12:
+            for p_id in preds:
+                info["parent_paths"] += 1
+                sd.reclaim_node_data()
+                sd.node_percolated_petri_net(p_id, compute=True)
+                npn2 = sd.node_percolated_petri_net(i, compute=True, parent_id=p_id)
+                bad = restricted_net_problems(npn2, sp, free, what="node's Petri net", prefix="node_petri_net")
+                if bad:
+                    out += bad
+                elif pn_variables(npn2) != sorted(free):
+                    out.append(fail("node_petri_net_places", "node_percolated_petri_net(parent_id=p) is over exactly the free variables", f"node {i} {sp} from parent {p_id}",
+                                    observed=pn_variables(npn2), expected=sorted(free)))
+                else:
+                    compare_moves(out, "node_petri_net_transition_mismatch", "the node's Petri net coincides with the original dynamics on the node's space whichever cached parent "
+                                  "net it is derived from", f"node {i} {sp} derived from the cached net of parent {p_id} {sd.node_data(p_id)['space']}", net,
+                                  lambda d, npn2=npn2: pn_moves(npn2, d), sp, free)
         nbn = sd.node_percolated_network(i, compute=True)
         sub = oracle.Net.from_bn(nbn)
         if sorted(sub.names) != sorted(free):
